@@ -173,7 +173,7 @@ def selectDependents (selfLen : Nat) (ms : List MorphR) (query : List PS) :
 /-- `get_space()` -/
 def getSpace (gens : List PS) (ms : List MorphR) : Except Err (Option (List PS)) := do
   let n := match gens with | [] => 0 | g :: _ => g.len
-  let all := (PS.genAll n).filter (fun g => !(g.beq (PS.ident n)))
+  let all := PS.genAll n
   selectDependents gens.length ms (← Graph.collInit all)
 
 /-! ### Invariants of a finite closed set of Pauli strings and of a named algebra
